@@ -185,6 +185,25 @@ func (p *Program) dependsOnCall(v ssa.Value, callee string, depth int, seen map[
 	if c, ok := v.(*ssa.Call); ok && p.calleeKey(c.Common()) == callee {
 		return true
 	}
+	// results of a transparent helper with several returns: any of the returned values
+	var tuple ssa.Value = v
+	if e, ok := v.(*ssa.Extract); ok {
+		tuple = e.Tuple
+	}
+	if c, ok := tuple.(*ssa.Call); ok {
+		if sc := c.Common().StaticCallee(); sc != nil && p.transparent(sc) {
+			if o := sc.Origin(); o != nil {
+				sc = o
+			}
+			for _, ret := range returnsOf(sc) {
+				for i := range ret.Results {
+					if p.dependsOnCall(p.res(ret, i), callee, depth+1, seen) {
+						return true
+					}
+				}
+			}
+		}
+	}
 	in, ok := v.(ssa.Instruction)
 	if !ok {
 		return false
@@ -254,6 +273,13 @@ func ruleC03R2(r *Run) {
 					var afacts []string
 					for _, f := range p.facts(in) {
 						afacts = append(afacts, f.String())
+					}
+					// exclusive within one iteration: neither is reachable from the other without passing the loop header
+					hdr := l.Header.Instrs[0]
+					noPath := !reachable(rj.Instr, in, func(x ssa.Instruction) bool { return x == hdr }) && !reachable(in, rj.Instr, func(x ssa.Instruction) bool { return x == hdr })
+					if noPath && in.Block() != rj.Instr.Block() {
+						r.OK(name+"#"+desc, in.Pos(), desc+" and repeat.reject() never happen in the same iteration")
+						continue
 					}
 					excl := len(rsets) > 0
 					for _, set := range rsets {
@@ -385,7 +411,7 @@ func ruleC03R4(r *Run) {
 	r.Floor("guarded accesses to buf in drawBits", n, 2)
 	// the empty edge
 	found := false
-	for _, b := range fn.Blocks {
+	for _, b := range p.body(fn) {
 		iff, ok := b.Instrs[len(b.Instrs)-1].(*ssa.If)
 		if !ok {
 			continue
@@ -965,7 +991,7 @@ func ruleC03R6(r *Run) {
 		}
 		par := paramNamed(fn, c.param)
 		found := false
-		for _, b := range fn.Blocks {
+		for _, b := range p.body(fn) {
 			for _, in := range b.Instrs {
 				st, ok := in.(*ssa.Store)
 				if !ok {
@@ -1082,7 +1108,7 @@ func ruleC03R9(r *Run) {
 		}
 		r.Floor("forceStop stores in reject", nFS, 1)
 		okPanic := false
-		for _, b := range fn.Blocks {
+		for _, b := range p.body(fn) {
 			for _, in := range b.Instrs {
 				if pn, ok := in.(*ssa.Panic); ok && p.typeStr(panicType(pn)) == "invalidData" && holds(p.facts(pn), "$r.count", "<", "$r.minCount") {
 					okPanic = true
@@ -1094,19 +1120,17 @@ func ruleC03R9(r *Run) {
 	if fn := r.MustFn("(*repeat).more"); fn != nil {
 		// pCont phi: 1 under count < minCount, 0 under count >= maxCount
 		for _, cs := range p.callsTo(fn, "flipBiasedCoin") {
-			ph, ok := p.resolve(cs.Arg(1)).(*ssa.Phi)
-			if !ok {
+			alts := p.alternatives(cs.Arg(1), 0)
+			if len(alts) < 2 {
 				r.Fail("(*repeat).more#pCont", cs.Instr.Pos(), "continue probability is not a choice between forced and free: "+p.expr(cs.Arg(1)))
 				continue
 			}
 			okMin, okMax := false, false
-			for i, e := range ph.Edges {
-				pred := ph.Block().Preds[i]
-				facts := p.facts(pred.Instrs[len(pred.Instrs)-1])
-				c, isC := p.resolve(e).(*ssa.Const)
-				if holds(facts, "$r.count", "<", "$r.minCount") {
+			for _, a := range alts {
+				c, isC := p.resolve(a.Val).(*ssa.Const)
+				if holds(a.Facts, "$r.count", "<", "$r.minCount") {
 					okMin = isC && p.expr(c) == "1"
-				} else if holds(facts, "$r.count", ">=", "$r.maxCount") {
+				} else if holds(a.Facts, "$r.count", ">=", "$r.maxCount") {
 					okMax = isC && p.expr(c) == "0"
 				}
 			}
